@@ -12,7 +12,7 @@ TARGETS = sched.TARGETS
 ASSUMPTIONS = sched.ASSUMPTIONS + ['empty initial environment',
                                    'specification F(graph, kinds): SKIPPED iff a hard dependency is FAILED/SKIPPED under F, else DONE iff do() '
                                    'returned a well-formed (update, DONE), FAILED for every other outcome kind; soft edges do not appear in F']
-OUTSIDE = sched.OUTSIDE
+OUTSIDE = [x for x in sched.OUTSIDE if 're-use' not in x] + ['re-use of one backend/Scheduler OBJECT for several schedule() calls (a fresh Scheduler and backend per run, as the run command does; earlier runs on the same TASK objects are covered by two configurations)']
 BOUNDS = dict(**{'quick': {'tasks': 2, 'graphs': 'all 3 labelled graphs on 2 tasks', 'workers': [1, 2],
                                               'plus': '3-task chain, fan-in hard+soft, hard-then-soft chain with 1 worker',
                                               'outcomes': KINDS, 'depth': 'every run, first K = 22+11N+6W steps'},
@@ -86,12 +86,18 @@ def prop(an, prod):
                         (Q3, lambda u: u.at(u.K, props.deadlock(prod)), confirm_stuck)]}
 
 
-def _job(n, hard, soft, w, tier, seed=0):
-    return run_job(Config(n, hard, soft, w), prop, tier, seed)
+def _job(n, hard, soft, w, tier, prior=None, seed=0):
+    return run_job(Config(n, hard, soft, w, prior=prior), prop, tier, seed)
 
 
 def jobs(tier):
-    return sched.standard_jobs(tier, _job)
+    out = sched.standard_jobs(tier, _job)
+    # "depends on the graph and task results only": the same task objects were scheduled before, in this
+    # process, under a DIFFERENT graph (one concrete warm-up run precedes the extraction)
+    for (n, hard, soft, w, prior) in [(2, [], [(1, 0)], 1, ([(1, 0)], [])), (2, [(1, 0)], [], 1, ([], []))]:
+        c = Config(n, hard, soft, w, prior=prior)
+        out.append((sched.cfg_name(c), _job, dict(n=n, hard=hard, soft=soft, w=w, tier=tier, prior=prior)))
+    return out
 
 
 def replay(rp):
